@@ -4,6 +4,6 @@ import ZarrsModel.Lemmas.ShardPEFrame
 import ZarrsModel.Lemmas.ShardPEMain
 /- helper lemmas for C05, split into
    ShardPEBasic (byte strings, positional assignments, `mapM`, `liveEnd`, `wellFormed` as a proposition),
-   ShardPEIndex (the folds of `partialEncode`, the new index position by position),
+   ShardPEIndex (the folds of `partialEncodePinned`, the new index position by position),
    ShardPEFrame (the shape of the written value and what it decodes to),
-   ShardPEMain  (the branches of `partialEncode`, the main statements) -/
+   ShardPEMain  (the branches of `partialEncodePinned`, the main statements) -/
